@@ -42,7 +42,11 @@ func scenarios() []scenario {
 	listBad := reqSpec{Name: "listBad", Method: "GET", Target: "/api/list?q=lb", Headers: map[string]string{"X-Key": "wrong", "Accept": "text/plain"}}
 	paramText := reqSpec{Name: "paramText", Method: "GET", Target: "/api/param/5?q=pt", Headers: map[string]string{"Accept": "text/plain"}}
 	paramJSON := reqSpec{Name: "paramJSON", Method: "GET", Target: "/api/param/6?q=pj", Headers: map[string]string{"Accept": "application/json"}}
+	// bodies admitted only through a wildcard consumes entry: the consumer is looked up per request
+	wildPlain := reqSpec{Name: "wildPlain", Method: "POST", Target: "/api/wild", Headers: map[string]string{"Content-Type": "text/plain", "Accept": "text/plain"}, Body: "wild plain body"}
+	wildCSV := reqSpec{Name: "wildCSV", Method: "POST", Target: "/api/wild", Headers: map[string]string{"Content-Type": "text/csv", "Accept": "application/json"}, Body: "w,c"}
 	return []scenario{
+		{"wildcard-consumes-plain-vs-csv", []reqSpec{wildPlain, wildCSV}},
 		{"offer-with-parameter-vs-json", []reqSpec{paramText, paramJSON}},
 		{"static-route-json-vs-text", []reqSpec{plainJSON, plainText}},
 		{"static-route-text-vs-json", []reqSpec{plainText, plainJSON}},
